@@ -902,6 +902,89 @@ func wireShape(p *Path) string {
 	return ren.apply(normLoopVars(out))
 }
 
+// coarseShapes renders the wire atoms of a path without their sources: one string per way through its alternatives.
+func coarseShapes(p *Path) []string {
+	atom := func(e *Event) string {
+		t := ""
+		switch e.Kind {
+		case EvReadInt:
+			t = "READ_INT(" + typeStr(e.IntType) + "," + e.Order + ")"
+		case EvWriteInt:
+			t = "WRITE_INT(" + typeStr(e.IntType) + "," + e.Order + ")"
+		case EvPatch:
+			t = "PATCH(" + typeStr(e.IntType) + "," + e.Order + ")"
+		case EvReadBytes:
+			t = "READ_BYTES"
+		case EvWriteBytes:
+			t = "WRITE_BYTES"
+		case EvObj:
+			t = "OBJ." + e.Dir
+		case EvCalc:
+			t = "CALC"
+		default:
+			t = e.Kind.String()
+		}
+		if e.Failed {
+			t += " FAILED"
+		}
+		return t
+	}
+	var rec func(evs []*Event) []string
+	rec = func(evs []*Event) []string {
+		outs := []string{""}
+		add := func(alts []string) {
+			var n []string
+			for _, o := range outs {
+				for _, a := range alts {
+					if len(n) > 64 {
+						break
+					}
+					if o == "" {
+						n = append(n, a)
+					} else if a == "" {
+						n = append(n, o)
+					} else {
+						n = append(n, o+" · "+a)
+					}
+				}
+			}
+			outs = n
+		}
+		for _, e := range evs {
+			if !countsAsWire(e) && e.Kind != EvPatch && e.Kind != EvCalc {
+				continue
+			}
+			switch e.Kind {
+			case EvAlt:
+				var alts []string
+				for _, arm := range e.Iter {
+					alts = append(alts, rec(arm.Events)...)
+				}
+				alts = dedupe(alts)
+				if len(alts) > 0 {
+					add(alts)
+				}
+			case EvRep:
+				var arms []string
+				for _, arm := range e.Iter {
+					arms = append(arms, rec(arm.Events)...)
+				}
+				sort.Strings(arms)
+				arms = dedupe(arms)
+				add([]string{"REP{" + strings.Join(arms, " | ") + "}"})
+			default:
+				add([]string{atom(e)})
+			}
+		}
+		return outs
+	}
+	var out []string
+	for _, r := range rec(p.Events) {
+		out = append(out, pathKind(p)+" ; "+r)
+	}
+	return out
+}
+
 // normLoopVars replaces "loopvar#N:name" / "loopout" spellings by a neutral token.
 func normLoopVars(s string) string {
 	var b strings.Builder
@@ -1152,7 +1235,17 @@ func (a *Analysis) primRendering(fn *ssa.Function, flip bool) ([]string, error) 
 				}
 			}
 		} else {
-			r = wireShape(p)
+			// a path that ends in an error: which atoms were read/written, in which type and byte order, and which of
+			// them failed – not how the function's control flow spells it (a twin may be a loop with early returns where
+			// the other keeps a sticky error, test `length > Len()` in an if where the other has an else …). One rendering
+			// per way through the alternatives.
+			for _, alt := range coarseShapes(p) {
+				if flip {
+					alt = flipOrder(alt)
+				}
+				set[alt] = true
+			}
+			continue
 		}
 		if flip {
 			r = flipOrder(r)
